@@ -192,6 +192,7 @@ func (l *Lexer) Next() (TokenType, []byte) {
 		if l.consumeIdentifierToken() {
 			return PrivateIdentifierToken, l.r.Shift()
 		}
+		l.r.Move(-1)
 	default:
 		if l.consumeIdentifierToken() {
 			if prevNumericLiteral {
